@@ -294,11 +294,10 @@ fn write_round(p: &mut Player, m: &mut Monitor, label: &Value) -> bool {
     true
 }
 
-fn request_for(method: &str, case: &Value, ctx: &Ctx) -> Option<String> {
+/// the parameters of `method` with parameter `pi` replaced by a value of class `class` (or dropped), the others well-formed
+pub fn params_for(method: &str, pi: usize, class: &str, ctx: &Ctx) -> Option<Value> {
     let sch = schema(method);
     let valid = methods::params(method, ctx);
-    let pi = case["param"].as_u64().unwrap_or(0) as usize;
-    let class = case["class"].as_str().unwrap_or("");
     // work proportional to the request is not a hang: mining 2^32 blocks is what was asked for
     if method == "brc20_mine" && pi == 0 && (class == "u32max" || class == "u64max") {
         return None;
@@ -341,6 +340,13 @@ fn request_for(method: &str, case: &Value, ctx: &Ctx) -> Option<String> {
         }
         Value::Object(obj)
     };
+    Some(params)
+}
+
+fn request_for(method: &str, case: &Value, ctx: &Ctx) -> Option<String> {
+    let pi = case["param"].as_u64().unwrap_or(0) as usize;
+    let class = case["class"].as_str().unwrap_or("");
+    let params = params_for(method, pi, class, ctx)?;
     Some(json!({"jsonrpc": "2.0", "id": 1, "method": method, "params": params}).to_string())
 }
 
